@@ -58,6 +58,8 @@ pub fn poly_grid(dim: usize, tier: Tier) -> Vec<Vec<(Vec<f64>, f64)>> {
     if dim == 1 {
         let rows: Vec<(Vec<f64>, f64)> = vec![
             (vec![1.0], 1.0), (vec![-1.0], 0.0), (vec![1.0], -1.0), (vec![-1.0], 1.0), (vec![2.0], 1.0), (vec![0.0], 1.0), (vec![0.0], -1.0), (vec![0.0], 0.0),
+            // a row that is not of unit length and whose scaled copy is not exact in f64
+            (vec![3.0], 1.0),
         ];
         for a in &rows {
             out.push(vec![a.clone()]);
@@ -69,6 +71,8 @@ pub fn poly_grid(dim: usize, tier: Tier) -> Vec<Vec<(Vec<f64>, f64)>> {
         let rows: Vec<(Vec<f64>, f64)> = vec![
             (vec![1.0, 0.0], 1.0), (vec![-1.0, 0.0], 0.0), (vec![0.0, 1.0], 1.0), (vec![0.0, -1.0], 0.0),
             (vec![1.0, 1.0], 1.0), (vec![-1.0, -1.0], -1.0), (vec![1.0, -1.0], 0.0), (vec![0.0, 0.0], 0.0), (vec![0.0, 0.0], -1.0),
+            // rows that are neither axis-parallel nor of unit length (their scaled copies are not exact in f64)
+            (vec![3.0, 4.0], 5.0), (vec![-1.0, -2.0], 1.0),
         ];
         for (i, a) in rows.iter().enumerate() {
             out.push(vec![a.clone()]);
